@@ -421,7 +421,9 @@ def run_check(prop, tier, seed):
                                  'correspondence_evaluations': r['corr_evals'],
                                  'search_evaluations': r['search_evals'],
                                  'disagreements': r.get('n_disagreements', 0),
-                                 'failing': len(r['failures']), 'new': len(new_here)}
+                                 'failing': len(r['failures']), 'new': len(new_here),
+                                 'left_out_of_correspondence_as_outside_the_modelled_configuration':
+                                     r.get('outside_configuration', 0)}
             for b in r['blind']:
                 broken.append({'kind': 'harness-blind', 'name': '%s %s (ambient %s)' % (prop.ID, b.split(':')[0], name),
                                'ambient': name, 'detail': b})
